@@ -105,6 +105,7 @@ def run(chk, repo, tier):
                             probs.append(f"miller_loop at {ev['where']} reachable with an infinity argument (z = 0 not excluded)")
             chk.ob("C05.R2", f.qualname, "infinity ⇒ one, Miller loop only with both z ≠ 0", not probs, "; ".join(probs[:2]), f.where)
         else:
+            bad_inf = []
             for qv, pv in (("none", "sym"), ("sym", "none"), ("none", "none")):
                 B = analyse_pairing_entry(w, repo, mod, opt, qv, pv)
                 for p in B["paths"]:
@@ -112,9 +113,17 @@ def run(chk, repo, tier):
                     if p.outcome == "return":
                         if not is_one(p.value) or any(ev["kind"] == "miller" for ev in p.events):
                             probs.append(f"pairing({'O' if qv == 'none' else 'Q'}, {'O' if pv == 'none' else 'P'}) returns {show(p.value)[:60]}")
+                        # the other (finite) argument is still validated
+                        need = [t for t, v in ((onQ, qv), (onP, pv)) if v == "sym"]
+                        if not all(has(facts, t, True) for t in need):
+                            bad_inf.append(f"pairing({'O' if qv == 'none' else 'Q'}, {'O' if pv == 'none' else 'P'}) returns "
+                                           f"{show(p.value)[:40]} without having tested is_on_curve of the finite argument "
+                                           f"(an off-curve point paired with infinity is accepted) on path {' '.join(p.branch_lines())}")
                     elif not (has(facts, onQ, False) or has(facts, onP, False)):
                         probs.append(f"pairing with an infinity argument raises {p.value.clsname()} at {p.value.where}")
             chk.ob("C05.R2", f.qualname, "infinity (None) in either argument ⇒ one, no line function evaluated", not probs, "; ".join(probs[:2]), f.where)
+            chk.ob("C05.R1", f.qualname, "with one argument at infinity the other is still refused when off its curve", not bad_inf,
+                   "; ".join(bad_inf[:2]), f.where)
         # callers of miller_loop
         ml = A["miller"]
         callers = set()
